@@ -486,23 +486,32 @@ pub fn locate(tag: &str, d: &[u8], rng: &mut Rng) -> Vec<Field> {
         }
         "CBLC" | "EBLC" => {
             f(&mut out, "CBLC.numSizes", 4, 4, n);
-            f(&mut out, "CBLC.size0.indexSubTableArrayOffset", 8, 4, n);
-            f(&mut out, "CBLC.size0.indexTablesSize", 12, 4, n);
-            f(&mut out, "CBLC.size0.numberOfIndexSubTables", 16, 4, n);
-            f(&mut out, "CBLC.size0.startGlyphIndex", 8 + 40, 2, n);
-            f(&mut out, "CBLC.size0.endGlyphIndex", 8 + 42, 2, n);
-            f(&mut out, "CBLC.size0.ppemX", 8 + 44, 1, n);
-            f(&mut out, "CBLC.size0.bitDepth", 8 + 46, 1, n);
-            if let Some(a) = be32(d, 8) {
-                f(&mut out, "CBLC.sub0.firstGlyph", a, 2, n);
-                f(&mut out, "CBLC.sub0.lastGlyph", a + 2, 2, n);
-                f(&mut out, "CBLC.sub0.additionalOffset", a + 4, 4, n);
-                if let Some(add) = be32(d, a + 4) {
-                    f(&mut out, "CBLC.sub0.indexFormat", a + add, 2, n);
-                    f(&mut out, "CBLC.sub0.imageFormat", a + add + 2, 2, n);
-                    f(&mut out, "CBLC.sub0.imageDataOffset", a + add + 4, 4, n);
-                    f(&mut out, "CBLC.sub0.word0", a + add + 8, 4, n);
-                    f(&mut out, "CBLC.sub0.word1", a + add + 12, 4, n);
+            let sizes = be32(d, 4).unwrap_or(1).clamp(1, 8);
+            let z = 8 + 48 * pick_index(rng, sizes);
+            f(&mut out, "CBLC.size.indexSubTableArrayOffset", z, 4, n);
+            f(&mut out, "CBLC.size.indexTablesSize", z + 4, 4, n);
+            f(&mut out, "CBLC.size.numberOfIndexSubTables", z + 8, 4, n);
+            f(&mut out, "CBLC.size.startGlyphIndex", z + 40, 2, n);
+            f(&mut out, "CBLC.size.endGlyphIndex", z + 42, 2, n);
+            f(&mut out, "CBLC.size.ppemX", z + 44, 1, n);
+            f(&mut out, "CBLC.size.ppemY", z + 45, 1, n);
+            f(&mut out, "CBLC.size.bitDepth", z + 46, 1, n);
+            f(&mut out, "CBLC.size.flags", z + 47, 1, n);
+            if let Some(a) = be32(d, z) {
+                let subs = be32(d, z + 8).unwrap_or(1).clamp(1, 8);
+                let e = a + 8 * pick_index(rng, subs);
+                f(&mut out, "CBLC.sub.firstGlyph", e, 2, n);
+                f(&mut out, "CBLC.sub.lastGlyph", e + 2, 2, n);
+                f(&mut out, "CBLC.sub.additionalOffset", e + 4, 4, n);
+                if let Some(add) = be32(d, e + 4) {
+                    let h = a + add;
+                    f(&mut out, "CBLC.sub.indexFormat", h, 2, n);
+                    f(&mut out, "CBLC.sub.imageFormat", h + 2, 2, n);
+                    f(&mut out, "CBLC.sub.imageDataOffset", h + 4, 4, n);
+                    f(&mut out, "CBLC.sub.word0", h + 8, 4, n);
+                    f(&mut out, "CBLC.sub.word1", h + 12, 4, n);
+                    f(&mut out, "CBLC.sub.word2", h + 16, 4, n);
+                    f(&mut out, "CBLC.sub.half", h + 8 + 2 * rng.usize_below(16), 2, n);
                 }
             }
         }
@@ -514,13 +523,138 @@ pub fn locate(tag: &str, d: &[u8], rng: &mut Rng) -> Vec<Field> {
         "morx" => {
             f(&mut out, "morx.version", 0, 2, n);
             f(&mut out, "morx.nChains", 4, 4, n);
-            f(&mut out, "morx.chain0.length", 12, 4, n);
-            f(&mut out, "morx.chain0.nFeatures", 16, 4, n);
-            f(&mut out, "morx.chain0.nSubtables", 20, 4, n);
+            morx_fields(&mut out, d, rng);
         }
         _ => {}
     }
     out
+}
+
+fn lookup_table_fields(out: &mut Vec<Field>, d: &[u8], at: usize, prefix: &str, rng: &mut Rng) {
+    let n = d.len();
+    f(out, &format!("{}.format", prefix), at, 2, n);
+    match be16(d, at) {
+        Some(0) => {
+            f(out, &format!("{}.fmt0.value", prefix), at + 2 + 2 * rng.usize_below(64), 2, n);
+        }
+        Some(2) | Some(4) | Some(6) => {
+            f(out, &format!("{}.bsearch.unitSize", prefix), at + 2, 2, n);
+            f(out, &format!("{}.bsearch.nUnits", prefix), at + 4, 2, n);
+            f(out, &format!("{}.bsearch.searchRange", prefix), at + 6, 2, n);
+            let unit = be16(d, at + 2).unwrap_or(6).max(2);
+            let units = be16(d, at + 4).unwrap_or(1).max(1);
+            let k = pick_index(rng, units);
+            for w in 0..(unit / 2).min(3) {
+                f(out, &format!("{}.unit.word{}", prefix, w), at + 12 + unit * k + 2 * w, 2, n);
+            }
+        }
+        Some(8) => {
+            f(out, &format!("{}.fmt8.firstGlyph", prefix), at + 2, 2, n);
+            f(out, &format!("{}.fmt8.glyphCount", prefix), at + 4, 2, n);
+            f(out, &format!("{}.fmt8.value", prefix), at + 6 + 2 * rng.usize_below(32), 2, n);
+        }
+        Some(10) => {
+            f(out, &format!("{}.fmt10.unitSize", prefix), at + 2, 2, n);
+            f(out, &format!("{}.fmt10.firstGlyph", prefix), at + 4, 2, n);
+            f(out, &format!("{}.fmt10.glyphCount", prefix), at + 6, 2, n);
+        }
+        _ => {}
+    }
+}
+
+/// Fields of one (seeded) chain / subtable of a morx table.
+fn morx_fields(out: &mut Vec<Field>, d: &[u8], rng: &mut Rng) {
+    let n = d.len();
+    let nchains = be32(d, 4).unwrap_or(0).min(8);
+    if nchains == 0 {
+        return;
+    }
+    let want_chain = rng.usize_below(nchains);
+    let mut c = 8;
+    for ci in 0..nchains {
+        let (Some(clen), Some(nfeat), Some(nsub)) = (be32(d, c + 4), be32(d, c + 8), be32(d, c + 12)) else {
+            return;
+        };
+        if ci == want_chain {
+            f(out, "morx.chain.defaultFlags", c, 4, n);
+            f(out, "morx.chain.length", c + 4, 4, n);
+            f(out, "morx.chain.nFeatures", c + 8, 4, n);
+            f(out, "morx.chain.nSubtables", c + 12, 4, n);
+            if nfeat > 0 {
+                let k = rng.usize_below(nfeat.min(64));
+                f(out, "morx.feature.type", c + 16 + 12 * k, 2, n);
+                f(out, "morx.feature.setting", c + 18 + 12 * k, 2, n);
+                f(out, "morx.feature.enableFlags", c + 20 + 12 * k, 4, n);
+                f(out, "morx.feature.disableFlags", c + 24 + 12 * k, 4, n);
+            }
+            let mut s = c + 16 + 12 * nfeat.min(4096);
+            let want_sub = rng.usize_below(nsub.clamp(1, 16));
+            for si in 0..nsub.min(16) {
+                let (Some(slen), Some(cov)) = (be32(d, s), be32(d, s + 4)) else {
+                    return;
+                };
+                if si == want_sub {
+                    f(out, "morx.subtable.length", s, 4, n);
+                    f(out, "morx.subtable.coverage", s + 4, 4, n);
+                    f(out, "morx.subtable.type", s + 7, 1, n);
+                    f(out, "morx.subtable.subFeatureFlags", s + 8, 4, n);
+                    let body = s + 12;
+                    let kind = cov & 0xff;
+                    if kind == 4 {
+                        lookup_table_fields(out, d, body, "morx.noncontextual.lookup", rng);
+                    } else {
+                        f(out, "morx.stx.nClasses", body, 4, n);
+                        f(out, "morx.stx.classTableOffset", body + 4, 4, n);
+                        f(out, "morx.stx.stateArrayOffset", body + 8, 4, n);
+                        f(out, "morx.stx.entryTableOffset", body + 12, 4, n);
+                        if kind == 1 {
+                            f(out, "morx.contextual.substitutionTableOffset", body + 16, 4, n);
+                            if let Some(so) = be32(d, body + 16) {
+                                let first = be32(d, body + so).unwrap_or(4);
+                                let cnt = (first / 4).max(1);
+                                let k = rng.usize_below(cnt.min(16));
+                                f(out, "morx.contextual.lookupOffset", body + so + 4 * k, 4, n);
+                                if let Some(lo) = be32(d, body + so + 4 * k) {
+                                    lookup_table_fields(out, d, body + so + lo, "morx.contextual.lookup", rng);
+                                }
+                            }
+                        } else if kind == 2 {
+                            f(out, "morx.ligature.ligActionOffset", body + 16, 4, n);
+                            f(out, "morx.ligature.componentOffset", body + 20, 4, n);
+                            f(out, "morx.ligature.ligatureListOffset", body + 24, 4, n);
+                            if let Some(ao) = be32(d, body + 16) {
+                                f(out, "morx.ligature.action", body + ao + 4 * rng.usize_below(12), 4, n);
+                            }
+                            if let Some(co) = be32(d, body + 20) {
+                                f(out, "morx.ligature.component", body + co + 2 * rng.usize_below(24), 2, n);
+                            }
+                        }
+                        if let Some(cto) = be32(d, body + 4) {
+                            lookup_table_fields(out, d, body + cto, "morx.class.lookup", rng);
+                        }
+                        if let (Some(sa), Some(et)) = (be32(d, body + 8), be32(d, body + 12)) {
+                            // one cell of the state array, one field of an entry
+                            let span = et.saturating_sub(sa).max(2);
+                            f(out, "morx.stateArray.cell", body + sa + 2 * rng.usize_below(span / 2), 2, n);
+                            let k = rng.usize_below(12);
+                            let esize = if kind == 1 { 8 } else { 6 };
+                            f(out, "morx.entry.newState", body + et + esize * k, 2, n);
+                            f(out, "morx.entry.flags", body + et + esize * k + 2, 2, n);
+                            f(out, "morx.entry.index", body + et + esize * k + 4, 2, n);
+                        }
+                    }
+                }
+                s += slen.max(12);
+                if s >= n {
+                    break;
+                }
+            }
+        }
+        c += clen.max(16);
+        if c >= n {
+            return;
+        }
+    }
 }
 
 /// Fields of the container (file-level).
